@@ -35,6 +35,14 @@ int in_len;
 static DBusHeader H; static unsigned char *hb = in_buf; static int cap = VERIF_N + 24;
 static struct { int revalidations; int lengthen_ok; int aligned; } G_b;
 #include "c12_strstubs.h"
+/* branches that the precondition (the field exists, its type is fixed-size) excludes: proved unreachable here, and cut
+ * so that symbolic execution does not wander into the typed writer / the realignment code */
+dbus_bool_t verif_nr_write_basic_field (DBusTypeWriter *writer, int field, int type, const void *value)
+{ __CPROVER_assert (0, "setfixed: append branch (write_basic_field) not reached for an existing field"); __CPROVER_assume (0); return 0; }
+void verif_nr_writer_init_values_only (DBusTypeWriter *w, int byte_order, const DBusString *type_str, int type_pos, DBusString *value_str, int value_pos)
+{ __CPROVER_assert (0, "setfixed: typed writer not reached for an existing field"); __CPROVER_assume (0); }
+dbus_bool_t verif_nr_set_basic_variable_length (DBusTypeReader *reader, int current_type, const void *value, const DBusTypeReader *realign_root)
+{ __CPROVER_assert (0, "setfixed: realignment branch (reader_set_basic_variable_length) not reached for a fixed-size value"); __CPROVER_assume (0); return 0; }
 static struct hdr_ref_fields RF, RF2;
 void harness (void)
 {
@@ -86,7 +94,7 @@ void harness (void)
       for (c = 0; c <= DBUS_HEADER_FIELD_LAST; c++)
         __CPROVER_assert (RF2.count[c] == RF.count[c] && RF2.val_at[c] == RF.val_at[c] && RF2.type[c] == RF.type[c], "setfixed: every field decodes where and as it did before");
       __CPROVER_assert (_dbus_header_get_serial (&H) == hdr_ref_serial (old) && _dbus_header_get_message_type (&H) == old[1] && in_buf[2] == old[2], "setfixed: serial, message type and flags unchanged");
-      REACH("edited"); if (field == DBUS_HEADER_FIELD_UNIX_FDS) REACH("edited-unix-fds"); if (v_at == 28) REACH("edited-second-field");
+      REACH("edited"); if (v == 0x01020304 && in_buf[1] > 4) REACH("edited-message-of-unknown-type");
     }
   else REACH("oom-in-reserve");
 }
